@@ -642,7 +642,8 @@ async fn client3(cfgf: &[u64], log: SLog, hg: Gates<u64>, pg: Gates<u64>) -> IoT
             }
         });
         if route {
-            let mk = |log: SLog, hg: Gates<u64>| {
+            // each resource logs the topic index of ITS OWN resource (1, 2): a publish routed to the wrong resource shows
+            let mk = |log: SLog, hg: Gates<u64>, fixed: u64| {
                 fn_service(move |p: v3::Publish| {
                     let h = {
                         let mut l = log.borrow_mut();
@@ -651,7 +652,7 @@ async fn client3(cfgf: &[u64], log: SLog, hg: Gates<u64>, pg: Gates<u64>) -> IoT
                             h,
                             qos_num(p.qos()),
                             p.id().map_or(0, |i| u64::from(i.get())),
-                            topic_idx(p.publish_topic()),
+                            fixed,
                             p.payload_size() as u64,
                             u64::from(p.retain()),
                         ]);
@@ -666,8 +667,8 @@ async fn client3(cfgf: &[u64], log: SLog, hg: Gates<u64>, pg: Gates<u64>) -> IoT
                 })
             };
             let _ = client
-                .resource("t1", mk(log.clone(), hg.clone()))
-                .resource("t2", mk(log.clone(), hg.clone()))
+                .resource("t1", mk(log.clone(), hg.clone(), 1))
+                .resource("t2", mk(log.clone(), hg.clone(), 2))
                 .start(proto)
                 .await;
         } else {
@@ -751,7 +752,8 @@ async fn client5(cfgf: &[u64], log: SLog, hg: Gates<u64>, pg: Gates<u64>) -> IoT
             }
         });
         if route {
-            let mk = |log: SLog, hg: Gates<u64>| {
+            // each resource logs the topic index of ITS OWN resource (1, 2): a publish routed to the wrong resource shows
+            let mk = |log: SLog, hg: Gates<u64>, fixed: u64| {
                 fn_service(move |p: v5::Publish| {
                     let h = {
                         let mut l = log.borrow_mut();
@@ -760,7 +762,7 @@ async fn client5(cfgf: &[u64], log: SLog, hg: Gates<u64>, pg: Gates<u64>) -> IoT
                             h,
                             qos_num(p.qos()),
                             p.id().map_or(0, |i| u64::from(i.get())),
-                            topic_idx(p.publish_topic()),
+                            fixed,
                             p.payload_size() as u64,
                             u64::from(p.retain()),
                         ]);
@@ -774,8 +776,8 @@ async fn client5(cfgf: &[u64], log: SLog, hg: Gates<u64>, pg: Gates<u64>) -> IoT
                 })
             };
             let _ = client
-                .resource("t1", mk(log.clone(), hg.clone()))
-                .resource("t2", mk(log.clone(), hg.clone()))
+                .resource("t1", mk(log.clone(), hg.clone(), 1))
+                .resource("t2", mk(log.clone(), hg.clone(), 2))
                 .start(proto)
                 .await;
         } else {
